@@ -27,3 +27,36 @@ open(V + "/seeded/SUMMARY.md", "w").write(
     "`VERIF_REPO=<worktree> ./check <id> --tier quick` with the CURRENT checks.\n\n| id | what breaks | needs to manifest | confirmed | check result |\n|---|---|---|---|---|\n"
     + "\n".join(rows) + "\n" + hist)
 print(len(rows), "seeded changes;", sum(1 for r in rows if "NOT caught" in r), "not caught")
+
+# ---- compact per-property table (for DESIGN.md section 10) ----
+import collections
+stat = collections.OrderedDict()
+for f in sorted(glob.glob(V + "/seeded/*/meta.json")):
+    sid = f.split("/")[-2]
+    m = json.load(open(f))
+    P = m.get("property") or sid.split("-")[0]
+    own = lambda checks: (checks or {}).get(P) or (list((checks or {}).values()) or [None])[0]
+    cur = own(m.get("checks"))
+    hist = m.get("check_history") or []
+    first = own(hist[0]["checks"]) if hist else cur
+    st = stat.setdefault(P, {"n": 0, "first_fi": 0, "first_nofi": 0, "first_miss": 0, "now_fi": 0, "now_nofi": 0, "now_miss": 0, "missed_ids": [], "still": []})
+    st["n"] += 1
+    def kind(v):
+        if not v: return "miss"
+        if v.get("exit") == 0: return "miss"
+        return "fi" if v.get("replay_kind") == "failing-input" else "nofi"
+    st["first_" + kind(first)] += 1
+    st["now_" + kind(cur)] += 1
+    if kind(first) == "miss": st["missed_ids"].append(sid)
+    if kind(cur) == "miss": st["still"].append(sid)
+lines = ["| property | seeded | first run: failing input / no failing input / not caught | current checks: failing input / no failing input / not caught | got through first (strengthened since) |",
+         "|---|---|---|---|---|"]
+tot = collections.Counter()
+for P, st in stat.items():
+    lines.append("| %s | %d | %d / %d / %d | %d / %d / %d | %s |" % (P, st["n"], st["first_fi"], st["first_nofi"], st["first_miss"],
+                 st["now_fi"], st["now_nofi"], st["now_miss"], ", ".join(st["missed_ids"]) + ((" — STILL: " + ", ".join(st["still"])) if st["still"] else "")))
+    for k in ("n", "first_fi", "first_nofi", "first_miss", "now_fi", "now_nofi", "now_miss"):
+        tot[k] += st[k]
+lines.append("| all | %d | %d / %d / %d | %d / %d / %d | |" % (tot["n"], tot["first_fi"], tot["first_nofi"], tot["first_miss"], tot["now_fi"], tot["now_nofi"], tot["now_miss"]))
+open(V + "/seeded/BY_PROPERTY.md", "w").write("\n".join(lines) + "\n")
+print("by property:", dict(tot))
